@@ -124,6 +124,14 @@ def units(tier):
         it.name = it.name.replace('c11_', 'c06_')
         it.prop = PROP
         ginsts.append(it)
+    # "storing into sandbox memory": the public store between two guest cells of different integer types (tainted_volatile::operator=
+    # cond3) must reach the range-checked conversion (contracts of C07)
+    from . import C07
+    for td, ts_ in [('short', 'long long'), ('unsigned int', 'int')] + ([] if tier == 'quick' else [('int', 'unsigned long'), ('char', 'int'), ('unsigned long', 'long')]):
+        it = C07.cellcopy_inst(td, ts_, tier)
+        it.name = it.name.replace('c07_', 'c06_')
+        it.prop = PROP
+        insts.append(it)
     return [Unit('C06_fundamental', insts), Unit('C06_call_arguments', ginsts)]
 
 
